@@ -341,7 +341,7 @@ class Machine:
                 return Str(b.decode("utf8", "replace"))
             return VecObj(list(b))
         if k == "zst":
-            return self.zst(c[1])
+            return self.zst(subst_text(c[1], fr.subst) if fr is not None and fr.subst else c[1])
         if k == "strlit":
             return Str(c[1])
         if k == "allocref":
@@ -486,7 +486,7 @@ class Machine:
                 name = inner[:top_find(inner, " closure_kind_ty")]
             n = self.resolve_item(name)
             if not n: raise Unsupported("closure item " + name[:200])
-            return Closure(n, [self.operand(fr, o) for _, o in rv[2]])
+            return Closure(n, [self.operand(fr, o) for _, o in rv[2]], fr.subst)
         if k == "struct":
             path = strip_generics(rv[1]).split("::")
             vals = {n: self.operand(fr, o) for n, o in rv[2]}
@@ -721,8 +721,8 @@ class Machine:
             if isinstance(f.caps, list): f.caps = env            # keep one environment object (FnMut state)
             if fn.locals["_1"].startswith("&"):
                 cell = [env]
-                return self.run_fn(fn, [Ref(cell, 0)] + list(args))
-            return self.run_fn(fn, [env] + list(args))
+                return self.run_fn(fn, [Ref(cell, 0)] + list(args), f.subst)
+            return self.run_fn(fn, [env] + list(args), f.subst)
         if isinstance(f, FnItem): return self.call_path(f.path, args)
         raise Unsupported(f"call_value {f!r}")
 
@@ -747,7 +747,10 @@ class Machine:
             tb, trb = base_name(ty), base_name(trait)
             c = self.world.impl_index().get((tb, trb, meth))
             if c and self.world.is_derived(tb, trb) is False:
-                return self.run_fn(self.mod.get(self.world.pick_impl(c, trait)), args, {"Self": tb})
+                f0 = self.mod.get_for_self(self.world.pick_impl(c, trait), tb)
+                sb = {"Self": tb}
+                sb.update(self.world.call_subst(f0.name, ty))
+                return self.run_fn(f0, args, sb)
         if trait is not None:
             gk = f"<_ as {base_name(trait)}>::{meth}"
             g = self.generic_models.get(gk)
@@ -766,6 +769,11 @@ class Machine:
         fn, subst = self.resolve(key, ty, trait, args, path)
         if fn is None:
             raise Unsupported(f"call {key}   <= {path[:200]}")
+        # type parameters of a generic impl, bound from the printed Self type of this call
+        sty = ty if ty is not None else self_type_of_path(path)
+        gs = self.world.call_subst(fn.name, sty)
+        if gs:
+            subst = dict(subst or {}); subst.update(gs)
         return self.run_fn(fn, args, subst)
 
     def resolve_item(self, path):
@@ -954,6 +962,7 @@ class Machine:
                     is_panic = last in PANIC_FNS and ("panic" in path or "core::" in path or "std::" in path or "alloc::" in path or "option" in path or "result" in path or "slice" in path)
                     tc = self.world.term_cache[id(t)] = (path, is_panic, t)
                 path, is_panic = tc[0], tc[1]
+                if fr.subst: path = subst_text(path, fr.subst)
                 if is_panic:
                     self.finding("panic:" + strip_generics(path), fr.fn.name); raise Panic(path)
                 if self.trace_calls is not None: self.trace_calls.append(path[:160])
@@ -966,6 +975,33 @@ class Machine:
             else: self.place_ref(fr, dest).set(v)
             return ret
         raise Unsupported(f"terminator {t}")
+
+
+def self_type_of_path(path):
+    """`Type::<Args>::method::<M>` -> `Type<Args>` (None when the path has no generic Self segment)"""
+    s = path.strip()
+    if s.startswith("<") or "::<" not in s: return None
+    segs = split_top(s.replace("::", "\x00"), "\x00")
+    segs = [x.replace("\x00", "::") for x in segs]
+    # drop the method (and its own turbofish, which is a separate segment `<..>` after the method name)
+    while segs and segs[-1].startswith("<"): segs.pop()
+    if segs: segs.pop()
+    if len(segs) >= 2 and segs[-1].startswith("<") and not segs[-1].startswith("<impl "):
+        return segs[-2] + segs[-1]
+    return None
+
+
+_SUBST_RE = {}
+
+
+def subst_text(text, subst):
+    """replace type-parameter names by concrete types in a printed type / path"""
+    keys = tuple(sorted(k for k in subst if k != "Self" or subst[k]))
+    if not keys: return text
+    rx = _SUBST_RE.get(keys)
+    if rx is None:
+        rx = _SUBST_RE[keys] = re.compile(r"(?<![\w'])(" + "|".join(re.escape(k) for k in keys) + r")(?![\w])")
+    return rx.sub(lambda mo: subst[mo.group(1)] or mo.group(1), text)
 
 
 def runtime_type(v):
